@@ -278,7 +278,9 @@ pub fn run(ctx: &Ctx, rep: &mut Report) {
         }
         return;
     }
-    let depth = if ctx.tier.is_thorough() { 4 } else { 3 };
+    // as a host explorer for another property's universal oracle the quick tier stops at depth 2
+    let in_cross = crate::checks::universal::IN_CROSS.load(std::sync::atomic::Ordering::SeqCst);
+    let depth = if ctx.tier.is_thorough() { 4 } else if in_cross { 2 } else { 3 };
     let mut items: Vec<(usize, Vec<usize>)> = Vec::new();
     for set in 0..OPTSETS.len() {
         let mut hists: Vec<Vec<usize>> = vec![vec![]];
